@@ -29,7 +29,10 @@ parameters (`Basis.Admissible`: exact with respect to the knots, inside the doma
 * `Bridge_C07_piece_*_partial` — a piece built by `split` evaluates like the refined object.
 * `Bridge_C05_*` — order elevation of curves (`ElevatedFrom`; clamped bases under `H_sw`) and of
   surfaces and volumes on clamped continuous bases (`Bridge_C05_clamped_surface`,
-  `Bridge_C05_clamped_volume`; no analytic hypothesis).
+  `Bridge_C05_clamped_volume`; no analytic hypothesis), and of periodic curves and of surfaces and
+  volumes with periodic directions relative to `H_sw` (`Bridge_C05_periodic_curve_partial`,
+  `Bridge_C05_weak_surface_partial`, `Bridge_C05_weak_volume_partial`,
+  `Bridge_C05_periodic_surface_partial`).
 For C04/C06/C07/C05 the conclusion is equality of the whole returned tensors (shape and flat data)
 for `tensor=True`, which is entrywise equality, and equality of the returned values (tensor or
 `ValueError` of the length test) for `tensor=False`.  The flat index of entry `(i₁, i₂, c)` of an
@@ -1831,6 +1834,104 @@ theorem Bridge_C05_clamped_volume (tol : K) (htol : 0 < tol)
   bridge_C05_clamped_volume tol htol qu au hqu x0u xlu umidu mmidu hlenu hmu hgapu
     qv av hqv x0v xlv umidv mmidv hlenv hmv hgapv qw aw hqw x0w xlw umidw mmidw hlenw hmw hgapw
     hnz o hw hb0 hb1 hb2 hnc
+
+/-- **C05 ⇒ evaluate, PERIODIC curves (partial: relative to `H_sw` only).**  With the hypotheses of
+`C05_geometry_periodic_partial` (standard periodic basis `PerData`, `a ≥ 1`, the periodic Greville
+collocation matrix has the model's certified inverse, the Greville points are admissible for both
+bases; degree-elevation inclusion for periodic bases is proved, `C05_elevation_periodic`) each of
+`raise_order_implicit(a)`, `SplineObject.raise_order(a)`, `Curve.raise_order(a)` succeeds and returns a
+curve that evaluates to the same tensor as the original at every list of parameters admissible for
+both bases (`tensor=True` and `tensor=False`; parameters outside the domain are wrapped). -/
+theorem Bridge_C05_periodic_curve_partial {tol : K} {p k : ℕ} {w0 : K} {wr : List K} {μ0 : ℕ}
+    {μr : List ℕ} {T : K} (h : PerData tol p k w0 wr μ0 μr T) (htol : 0 < tol) (a : ℕ) (ha : 1 ≤ a)
+    (o : Obj K) (nc : ℕ)
+    (hb : o.bases = #[perBasis p k (w0 :: wr) (μ0 :: μr) T])
+    (hs : o.cps.shape = [(perBasis p k (w0 :: wr) (μ0 :: μr) T).numFunctions, nc])
+    (hnc : o.rational = true → 1 ≤ nc)
+    (pts : Array K)
+    (hg : (perBasis (p + a) k (w0 :: wr) ((μ0 :: μr).map (· + a)) T).greville = .ok pts)
+    (hadm : ∀ t ∈ pts.toList, (perBasis p k (w0 :: wr) (μ0 :: μr) T).Admissible tol t ∧
+      (perBasis (p + a) k (w0 :: wr) ((μ0 :: μr).map (· + a)) T).Admissible tol t)
+    (Ni : Mat K)
+    (H_sw : Mat.invChecked (Obj.basisMat (perBasis (p + a) k (w0 :: wr) ((μ0 :: μr).map (· + a)) T)
+      tol pts.toList 0 true) = .ok Ni) :
+    let b := perBasis p k (w0 :: wr) (μ0 :: μr) T
+    let b' := perBasis (p + a) k (w0 :: wr) ((μ0 :: μr).map (· + a)) T
+    (∃ o', o.raiseOrderImplicit tol [a] = .ok o' ∧ SameEvalCurve tol b b' o o') ∧
+    (∃ o', o.raiseOrder tol [(a : Int)] none = .ok (.self, o') ∧ SameEvalCurve tol b b' o o') ∧
+    (∃ o', o.curveRaiseOrder tol (a : Int) = .ok (.self, o') ∧ SameEvalCurve tol b b' o o') := by
+  intro b b'
+  have hv : b.Valid := h.valid htol.le
+  have hv' : b'.Valid := by
+    have := (h.raise a).valid htol.le
+    have hmap : (μ0 :: μr).map (· + a) = (μ0 + a) :: μr.map (· + a) := by simp
+    show (perBasis (p + a) k (w0 :: wr) ((μ0 :: μr).map (· + a)) T).Valid
+    rw [hmap]; exact this
+  obtain ⟨⟨o1, h1, E1⟩, ⟨o2, h2, E2⟩, ⟨o3, h3, E3⟩⟩ :=
+    C05_geometry_periodic_partial h htol a ha o nc hb hs pts hg hadm Ni H_sw
+  exact ⟨⟨o1, h1, sameEvalCurve_of_elevatedOn hb hv hv' hs hnc htol E1⟩,
+    ⟨o2, h2, sameEvalCurve_of_elevatedOn hb hv hv' hs hnc htol E2⟩,
+    ⟨o3, h3, sameEvalCurve_of_elevatedOn hb hv hv' hs hnc htol E3⟩⟩
+
+/-- **C05 ⇒ evaluate, SURFACES with periodic directions (partial: relative to `H_sw` of the periodic
+directions).**  `o` is a well-formed surface whose two directions are `DirOKw` — clamped continuous
+(`dirOK_clamped` + `DirOK.weak`, no hypothesis), unchanged (`dirOK_unchanged`), or standard periodic
+(`C05_periodic_direction_partial`, relative to `H_sw` and admissible Greville points) — and the guard
+of `raise_order` evaluates.  Then the public `raise_order(a_u, a_v)` succeeds, returns the receiver, and
+the result evaluates to the same tensor as the original at every pair of parameter lists admissible
+for the old and new bases (`tensor=True` and `tensor=False`). -/
+theorem Bridge_C05_weak_surface_partial (o : Obj K) (tol : K) (htol : 0 < tol) (hw : C06.WF o 2)
+    (au av : ℕ) (bu' bv' : Basis K) (Eu Ev : ℕ → ℕ → K) (hu : DirOKw tol (o.basis 0) au bu' Eu)
+    (hv : DirOKw tol (o.basis 1) av bv' Ev) (hnc : o.rational = true → 1 ≤ o.ncomp)
+    (hnz : au ≠ 0 ∨ av ≠ 0) (hguard : Obj.raiseGuard tol o.bases.toList = .ok true) :
+    ∃ o', o.raiseOrder tol [(au : Int), (av : Int)] none = .ok (.self, o')
+      ∧ o.raiseOrderImplicit tol [au, av] = .ok o'
+      ∧ SameEvalSurface tol (o.basis 0) bu' (o.basis 1) bv' o o' :=
+  raiseOrder_surface_sameEval_w o tol htol hw au av bu' bv' Eu Ev hu hv hnc hnz hguard
+
+/-- **C05 ⇒ evaluate, VOLUMES with periodic directions (partial: relative to `H_sw` of the periodic
+directions).**  As `Bridge_C05_weak_surface_partial` for three directions. -/
+theorem Bridge_C05_weak_volume_partial (o : Obj K) (tol : K) (htol : 0 < tol) (hw : C06.WF o 3)
+    (au av aw : ℕ) (bu' bv' bw' : Basis K) (Eu Ev Ew : ℕ → ℕ → K)
+    (hu : DirOKw tol (o.basis 0) au bu' Eu) (hv : DirOKw tol (o.basis 1) av bv' Ev)
+    (hw2 : DirOKw tol (o.basis 2) aw bw' Ew) (hnc : o.rational = true → 1 ≤ o.ncomp)
+    (hnz : au ≠ 0 ∨ av ≠ 0 ∨ aw ≠ 0) (hguard : Obj.raiseGuard tol o.bases.toList = .ok true) :
+    ∃ o', o.raiseOrder tol [(au : Int), (av : Int), (aw : Int)] none = .ok (.self, o')
+      ∧ o.raiseOrderImplicit tol [au, av, aw] = .ok o'
+      ∧ SameEvalVolume tol (o.basis 0) bu' (o.basis 1) bv' (o.basis 2) bw' o o' :=
+  raiseOrder_volume_sameEval_w o tol htol hw au av aw bu' bv' bw' Eu Ev Ew hu hv hw2 hnc hnz hguard
+
+/-- **C05 ⇒ evaluate, a surface periodic in `u` and clamped continuous in `v` (partial: relative to
+`H_sw` of the periodic direction only).**  Concrete instance of `Bridge_C05_weak_surface_partial`:
+`u` on a standard periodic basis (`PerData`), `v` on a clamped continuous basis in the form of
+`C05_knots`; the only hypotheses beyond the knot-vector forms are the certified inverse of the periodic
+Greville collocation matrix and admissibility of the periodic Greville points. -/
+theorem Bridge_C05_periodic_surface_partial {tol : K} {p k : ℕ} {w0 : K} {wr : List K} {μ0 : ℕ}
+    {μr : List ℕ} {T : K} (h : PerData tol p k w0 wr μ0 μr T) (htol : 0 < tol) (au : ℕ)
+    (pts : Array K)
+    (hg : (perBasis (p + au) k (w0 :: wr) ((μ0 :: μr).map (· + au)) T).greville = .ok pts)
+    (hadm : ∀ t ∈ pts.toList, (perBasis p k (w0 :: wr) (μ0 :: μr) T).Admissible tol t ∧
+      (perBasis (p + au) k (w0 :: wr) ((μ0 :: μr).map (· + au)) T).Admissible tol t)
+    (Ni : Mat K)
+    (H_sw : Mat.invChecked (Obj.basisMat (perBasis (p + au) k (w0 :: wr) ((μ0 :: μr).map (· + au)) T)
+      tol pts.toList 0 true) = .ok Ni)
+    (qv av : ℕ) (hqv : 1 ≤ qv + av) (x0v xlv : K) (umidv : List K) (mmidv : List ℕ)
+    (hlenv : umidv.length = mmidv.length) (hmv : ∀ j ∈ mmidv, 1 ≤ j ∧ j ≤ qv)
+    (hgapv : Separated (2 * ((qv + av : ℕ) : K) * tol) (clampedU x0v xlv umidv))
+    (hnz : au ≠ 0 ∨ av ≠ 0)
+    (o : Obj K) (hw : C06.WF o 2)
+    (hb0 : o.basis 0 = perBasis p k (w0 :: wr) (μ0 :: μr) T)
+    (hb1 : o.basis 1 = openBasis (qv+1) (clampedU x0v xlv umidv) (clampedM (qv+1) mmidv))
+    (hnc : o.rational = true → 1 ≤ o.ncomp) :
+    ∃ o', o.raiseOrder tol [(au : Int), (av : Int)] none = .ok (.self, o')
+      ∧ o.raiseOrderImplicit tol [au, av] = .ok o'
+      ∧ SameEvalSurface tol
+          (perBasis p k (w0 :: wr) (μ0 :: μr) T)
+          (perBasis (p + au) k (w0 :: wr) ((μ0 :: μr).map (· + au)) T)
+          (openBasis (qv+1) (clampedU x0v xlv umidv) (clampedM (qv+1) mmidv))
+          (openBasis (qv+1+av) (clampedU x0v xlv umidv) (clampedM (qv+1+av) (mmidv.map (· + av)))) o o' :=
+  bridge_C05_periodic_surface h htol au pts hg hadm Ni H_sw qv av hqv x0v xlv umidv mmidv hlenv hmv hgapv
+    hnz o hw hb0 hb1 hnc
 
 /-! ## The continuity hypothesis of `reverse` cannot be dropped -/
 
